@@ -335,7 +335,13 @@ class Response:
             self.headers['Content-Length'] = str(cLength)
 
         for v in self.cookie.values():
-            self.headers.add_header('Set-Cookie', v.OutputString())
+            value = v.OutputString()
+            # The jar is the request's: what the client sent comes back.  A
+            # cookie that cannot stand in a header line (control characters
+            # such as CR LF, characters outside ISO-8859-1) is not sent.
+            if any((ord(c) < 32 and c != '\t') or ord(c) == 127 or ord(c) > 255 for c in value):
+                continue
+            self.headers.add_header('Set-Cookie', value)
 
         if status == 413:
             self.close = True
